@@ -161,11 +161,86 @@ def search_family(ck, harness, hist):
             ck.sample({"search": list(c), "file": sc.unhex(content).decode("latin1")[:200], "individuals": n})
 
 
+def model_family(ck, harness, hist):
+    """trained models of every kind (reg, dyn_slot, gaussian, binary; individual, team, wta, mv) through the real
+    serialize::save / serialize::lambda::load: same predictions (label + confidence bits, values) on the training rows
+    AND on many unseen / extreme queries, same bytes when the reloaded model is saved again"""
+    import c08                       # generators of the lambda cases (read-only reuse)
+    rnd = ck.rng
+    if ck.replay_path:
+        rp = json.load(open(ck.replay_path))
+        lines = [rp["model_case"]] if "model_case" in rp else []
+    else:
+        lines = []
+        for combo in c08.COMBOS_T:
+            for _ in range(60 if ck.thorough else 6):
+                c = c08.gen_header(rnd, combo)
+                if combo.startswith("dyn") and rnd.random() < 0.7:
+                    # many slots, few training rows: most slots see no training example
+                    c["xslot"] = rnd.choice([3, 5, 10])
+                    c["train"] = c["train"][:rnd.randint(1, 4)] or c["train"]
+                q = [list(r) for _, r in c["train"]]
+                for _ in range(30):
+                    r = rnd.random()
+                    if r < 0.4:
+                        q.append([rnd.uniform(-60, 60) for _ in range(c08.NV)])
+                    elif r < 0.6:
+                        q.append([float(rnd.randint(-9, 9)) for _ in range(c08.NV)])
+                    else:
+                        q.append(c08.rand_row(rnd, "wild"))
+                c["query"] = q
+                lines.append("MODEL " + c08.case_line("T", c)[2:])
+    if not lines:
+        return
+    out, crashes = sc.run_harness_chunks(harness, lines, 40)
+    for i, line in enumerate(lines):
+        ck.count()
+        w = line.split()
+        combo = w[1] + "/" + w[2]
+        hist["MODEL:" + combo] = hist.get("MODEL:" + combo, 0) + 1
+        ho = out[i]
+        replay = {"model_case": line, "impl": (ho or "")[:3000]}
+        if ho is None or ho.startswith("CRASH") or ho.startswith("EXC") or ho.startswith("BADCASE"):
+            replay["sanitizer"] = crashes.get(i, "")[-2500:]
+            ck.add_violation("MODEL:%s:save-load-crash" % combo, "model %s: save/load crashes or throws: %s" % (combo, (ho or "")[:80]), replay)
+            continue
+        f = sc.fields(ho)
+        if f[0] != "OK" or len(f) < 6:
+            ck.add_diff({"model_case": line}, "", ho, "harness protocol")
+            continue
+        saved, loaded, text, text2 = f[1:5]
+        pw = f[5].split()
+        n = int(pw[0])
+        ck.nontriv(("MODEL", line))
+        problems = []
+        if saved != "1":
+            problems.append("serialize::save returns false")
+        elif loaded != "1":
+            problems.append("serialize::lambda::load of the saved model gives %s" % ("nullptr" if loaded == "0" else loaded))
+        else:
+            ntrain = int(w[5 + int(w[5]) + 1])
+            for j in range(n):
+                a, b = pw[1 + 2 * j], pw[2 + 2 * j]
+                if a != b:
+                    problems.append("query %d (%s): original model predicts %s, reloaded model predicts %s"
+                                    % (j, "a training row" if j < ntrain else "unseen input", a, b))
+            if text2 != text:
+                problems.append("saving the reloaded model yields different bytes")
+        if problems:
+            replay["problems"] = problems[:8]
+            replay["saved_text"] = sc.unhex(text).decode("latin1")[:1500]
+            ck.add_violation("MODEL:%s:predictions-differ-after-reload" % combo,
+                             "trained model %s: %s" % (combo, "; ".join(problems[:3])), replay)
+        if i < 1:
+            ck.sample({"model": combo, "queries": n, "saved_text": sc.unhex(text).decode("latin1")[:200]})
+
+
 def run(ck):
     harness, model = sc.build(ck)
     ck.add_proof(vv.prove("Properties_C11", set()))
     ck.add_proof(vv.prove("Refuted_C11", set()))
     ck.add_proof(vv.prove("CacheCorollary_C11", set()))
+    ck.add_proof(vv.prove("LambdaCorollary_C11", vv.FLOCQ_AXIOMS))
     ck.trusted += sc.TRUSTED
     ck.assumptions += sc.ASSUMPTIONS
 
@@ -268,6 +343,7 @@ def run(ck):
     # ---- the fitness cache (also after clears): identical lookups for EVERY key ever used
     cache_family(ck, harness, hist)
     search_family(ck, harness, hist)
+    model_family(ck, harness, hist)
     ck.coverage["per_type"] = hist
     return ck.finish(
         rule="objects of 15 persistable types (hash, fitness, i_mep over 1- and 2-category symbol sets, i_ga, i_de, team, "
@@ -277,4 +353,6 @@ def run(ck):
              "plus fitness-cache scripts (insert / clear() / clear(key) / insert on colliding key pools): save, load into a "
              "fresh cache, every key ever used looked up in both, save(load(save)); non-trivial = script with a clear; plus "
              "search<i_mep>::save/load of the evaluator cache to env.misc.serialization_file through evaluator_proxy "
-             "(counting evaluator): file bytes = cache::save, identical lookups, hits of the reloaded proxy")
+             "(counting evaluator): file bytes = cache::save, identical lookups, hits of the reloaded proxy; plus trained models "
+             "of 11 kinds (reg/dyn_slot/gaussian/binary x individual/team/wta/mv) through serialize::save / "
+             "serialize::lambda::load: predictions on every training row and 30 unseen or extreme queries, save(load(save))")
